@@ -385,6 +385,7 @@ Definition static_ops (lk : tlookup) : list op := map (fun e => Write (fst (snd 
      fn 3: ( 3 ops prev )         op := ( 0 name content ) | ( 1 name target ) ; prev := list of ( name 0 content ) | ( name 1 target )
            -> final directory sorted by name
      fn 4: ( 4 last n ) -> ( ids last' )
+     fn 6: ( 6 env opt now )      env/opt := () | ( seconds ) -> build time in seconds
      fn 5: ( 5 files base )       files/base := list of ( name content ), files in LISTING order
            -> the template lookup as list of ( name content ) in dict order  *)
 Fixpoint node_of_sexp (fuel : nat) (s : sexp) : fsnode :=
@@ -469,5 +470,6 @@ Definition run (s : sexp) : sexp :=
       let files := map rd (to_list (nth_s 1 s)) in
       let base := fold_left (tl_add ascii_lower) (map rd (to_list (nth_s 2 s))) [] in
       L (map (fun e => L [of_text (fst (snd e)); of_N (snd (snd e))]) (load_dir ascii_lower (fun l => l) files base))
+  | 6 => A (buildtime (to_option to_Z (nth_s 1 s)) (to_option to_Z (nth_s 2 s)) (to_Z (nth_s 3 s)))
   | _ => bad_input
   end.
